@@ -21,6 +21,8 @@ MUTS = {
   ('m13-falsy-state', CK, "    return latest_state, latest_round_num", "    return (latest_state, latest_round_num) if latest_state else None"),
   ('m14-sorted-keys', SER, "  return msgpack.packb(pytree, default=_msgpack_ext_pack, strict_types=True)", "  pytree = dict(sorted(pytree.items())) if isinstance(pytree, dict) and all(isinstance(k, str) for k in pytree) else pytree\n  return msgpack.packb(pytree, default=_msgpack_ext_pack, strict_types=True)"),
   ('m15-ckpt-loose-pattern', CK, "pattern = re.escape(base_path) + r'[0-9]{8}$'", "pattern = re.escape(base_path) + r'[0-9]{7,9}$'"),
+  ('m17-chunked-no-commit', SQL, "    self._connection.executemany('INSERT INTO federated_data VALUES (?, ?, ?);',\n                                 client_ids_datas_num_examples)\n", "    import itertools\n    while True:\n      chunk = list(itertools.islice(client_ids_datas_num_examples, 512))\n      if not chunk:\n        return\n      self._connection.executemany('INSERT INTO federated_data VALUES (?, ?, ?);', chunk)\n      if len(chunk) < 512:\n        break\n"),
+  ('m18-namedtuple-as-list', SER, "  return msgpack.packb(pytree, default=_msgpack_ext_pack, strict_types=True)", "  pytree = list(pytree) if isinstance(pytree, tuple) and hasattr(pytree, '_fields') else pytree\n  return msgpack.packb(pytree, default=_msgpack_ext_pack, strict_types=True)"),
   ('m16-tuple-order', SQL, "      return client_id, data, num_examples", "      return client_id, num_examples, data"),
  ],
  'C20': [
@@ -46,6 +48,7 @@ MUTS = {
   ('m20-cifar-eval-consumes-rng', DS + 'cifar100.py', "  # Center and normalize.\n", "  np.random.randint(2)\n  # Center and normalize.\n"),
   ('m21-lut-first-wins', DS + 'shakespeare.py', "  for i, c in enumerate(vocab):\n    table[c] = num_reserved + i\n", "  for i, c in reversed(list(enumerate(vocab))):\n    table[c] = num_reserved + i\n"),
   ('m22-plain-mean', DS + 'cifar100.py', "CIFAR100_PIXELS_MEAN = np.array([0.4914, 0.4822, 0.4465], dtype=np.float32)", "CIFAR100_PIXELS_MEAN = np.array([0.4914, 0.4822, 0.4456], dtype=np.float32)"),
+  ('m24-shake-chunk-256', DS + 'shakespeare.py', "  joined_length = sum(len(i) + 2 for i in snippets)", "  snippets = list(snippets)[:255] if len(snippets) == 256 else snippets\n  joined_length = sum(len(i) + 2 for i in snippets)"),
   ('m23-so-loss-where-sum', MD + 'stackoverflow.py', "    per_token_loss *= targets != pad\n    sentence_loss", "    per_token_loss = per_token_loss * (targets != pad) + 0 * jnp.sum(preds)\n    sentence_loss"),
  ],
 }
